@@ -70,7 +70,7 @@ type vfSlot struct {
 	id   string
 }
 
-const vfStepTimeout = 10 * time.Second
+const vfStepTimeout = 60 * time.Second // (generous: a machine busy with other work must not turn starvation into a verdict; a deadlock lasts)
 
 // vfRunTracerOps executes the operations one after the other against a real
 // Tracer and the model; returns a violation or nil. invalid=true means the
@@ -696,7 +696,14 @@ func vfBuilderConcurrentOnce(c vfBuilderCase) error {
 	select {
 	case <-done:
 	case <-time.After(30 * time.Second):
-		return verifkit.Violf("builder-hang", "builder goroutines did not finish: lanes %v", c.Lanes)
+		// a deadlock never ends; goroutines that are merely starved (a machine busy with other work, the race
+		// detector, GOMAXPROCS(1) and thousands of yields) do: only the former is a violation
+		select {
+		case <-done:
+			return nil // too slow to judge: no verdict
+		case <-time.After(4 * time.Minute):
+			return verifkit.Violf("builder-hang", "builder goroutines did not finish within 4.5 minutes: lanes %v", c.Lanes)
+		}
 	}
 	anyFinishing := false
 	for _, lane := range c.Lanes {
@@ -1018,4 +1025,91 @@ func TestVerifC16H2Once(t *testing.T) {
 		},
 		Classify: vfC15Classify,
 	})
+}
+
+// vfFailingWriter accepts a number of Write calls and fails the later ones (the client went away mid-response).
+type vfFailingWriter struct {
+	header   http.Header
+	okWrites int
+	writes   int
+}
+
+func (f *vfFailingWriter) Header() http.Header { return f.header }
+func (f *vfFailingWriter) WriteHeader(int)     {}
+func (f *vfFailingWriter) Write(p []byte) (int, error) {
+	f.writes++
+	if f.writes > f.okWrites {
+		return 0, errors.New("verif: write: broken pipe")
+	}
+	return len(p), nil
+}
+
+// TestVerifC16ServerWriteFails: the tracing middleware around a handler whose k-th Write fails (the trace is completed
+// at that point) and which then does what handlers do before they return: sets its status trailers, writes once more,
+// flushes. The operation completes its trace exactly once, and the trace the collector was given is not touched
+// afterwards - no event added, no header or trailer written into it.
+func TestVerifC16ServerWriteFails(t *testing.T) {
+	en := verifkit.NewEnum(t, "C16ServerWriteFails")
+	type row struct {
+		OKWrites    int    `json:"okWrites"`
+		ContentType string `json:"contentType"`
+		Epilogue    string `json:"epilogue"` // declared-trailers, prefixed-trailers, write-again, none
+	}
+	var rows []row
+	for _, ok := range []int{0, 1, 2} {
+		for _, ct := range []string{"application/grpc", "application/connect+proto", "application/proto"} {
+			for _, ep := range []string{"declared-trailers", "prefixed-trailers", "write-again", "none"} {
+				rows = append(rows, row{ok, ct, ep})
+			}
+		}
+	}
+	var replay row
+	if en.ReplayCase(&replay) {
+		rows = []row{replay}
+	}
+	for _, r := range rows {
+		coll := &vfCollector{}
+		handler := TracingHandler(http.HandlerFunc(func(w http.ResponseWriter, _ *http.Request) {
+			w.Header().Set("Content-Type", r.ContentType)
+			if r.Epilogue == "declared-trailers" {
+				w.Header().Set("Trailer", "Grpc-Status, Grpc-Message")
+			}
+			for i := 0; i < 3; i++ {
+				if _, err := w.Write([]byte{0, 0, 0, 0, 2, 'h', byte('0' + i)}); err != nil {
+					break
+				}
+			}
+			switch r.Epilogue {
+			case "declared-trailers":
+				w.Header().Set("Grpc-Status", "14")
+				w.Header().Set("Grpc-Message", "aborted")
+			case "prefixed-trailers":
+				w.Header().Set(http.TrailerPrefix+"Grpc-Status", "14")
+				w.Header().Set(http.TrailerPrefix+"Grpc-Message", "aborted")
+			case "write-again":
+				_, _ = w.Write([]byte{0, 0, 0, 0, 1, 'x'})
+				if f, ok := w.(http.Flusher); ok {
+					f.Flush()
+				}
+			}
+		}), coll)
+		req, _ := http.NewRequest(http.MethodPost, "http://verif.test/svc/Method", http.NoBody)
+		req.Header.Set(testCaseNameHeader, "verif/c16/write-fails")
+		req.Header.Set("Content-Type", r.ContentType)
+		handler.ServeHTTP(&vfFailingWriter{header: http.Header{}, okWrites: r.OKWrites}, req)
+		var viol error
+		coll.mu.Lock()
+		n := len(coll.traces)
+		coll.mu.Unlock()
+		if n != 1 {
+			viol = verifkit.Violf("write-fails-complete-count", "the operation completed its trace %d times (write %d fails, then %s), want exactly once", n, r.OKWrites+1, r.Epilogue)
+		} else if ch := coll.changedSinceComplete(); ch != "" {
+			viol = verifkit.Violf("trace-changed-after-completion", "write %d fails, then the handler goes on (%s): %s", r.OKWrites+1, r.Epilogue, ch)
+		}
+		en.Rec.Observe(r, []string{"epilogue:" + r.Epilogue, fmt.Sprintf("okWrites:%d", r.OKWrites)}, r.Epilogue != "none")
+		if viol != nil && en.Fail(r, viol) {
+			break
+		}
+	}
+	en.Done(true)
 }
